@@ -66,7 +66,7 @@ LEMMA_FAMILY = {
     "roundtrip_cart": ["conversions"], "roundtrip_polar": ["conversions"], "symbols_covered": ["tables"],
     "labels_covered": ["tables"], "chi_of_cartesian": ["conversions", "merge"], "merge_surface": ["merge"],
     "chi_roundtrip_all": ["equivalence"], "roundtrip_general": ["equivalence", "conversions"],
-    "roundtrip_iso": ["equivalence", "conversions"], "tables_tied": ["tables", "alias"], "tables_closed": ["tables"],
+    "roundtrip_iso": ["equivalence", "conversions"], "tables_tied": ["tables"], "tables_closed": ["tables"],
     "grad_alpha": ["surface"], "grad_phi": ["surface"], "grad_is_lambda_times_derivative": ["surface"],
     "grad_cartesian_directional": ["surface"],
     "dchi_dk_env3": ["shift", "fit"], "dchi_dphi_env3": ["shift", "fit"], "rot_grid": ["shift", "fit"],
@@ -506,7 +506,7 @@ def check_alias(ctx: Ctx, model_available=True):
                               found_input=oracle_bad[i] is not None)
     ctx.sample({"kind": "alias", "case": cases[len(cases) // 2], "impl": impl[len(cases) // 2]})
     ctx.log("alias handlers: %d dictionaries, %d oracle failures, %d model disagreements" % (len(cases), nbad, ndis))
-    check_setter_sequences(ctx)
+    check_setter_sequences(ctx, model_available and vals is not None)
 
 
 SEQ_FIXED = [
@@ -519,7 +519,7 @@ SEQ_FIXED = [
 ]
 
 
-def check_setter_sequences(ctx: Ctx):
+def check_setter_sequences(ctx: Ctx, model_available=True):
     """the probe-params setter assigned several times on ONE object (stand-in namespace and real ProbePixelated):
     every assignment must mean what the same dictionary means on a fresh object (which the model correspondence
     of check_alias ties to the Coq model), and 'defocus' must still enter as C10 = -defocus"""
@@ -527,11 +527,14 @@ def check_setter_sequences(ctx: Ctx):
     r = ctx.rng
     cases = list(corpus(ctx).get("sequences", [])) + SEQ_FIXED + [O.gen_setter_seq(r) for _ in range(ctx.budget(60, 1200))]
     nbad = 0
+    finals = []
     for c in cases:
         for real in ([False, True] if c.get("real_object") else [False]):
             if real and c["max_order"] != 5:
                 continue
-            got = O.run_setter_seq(c["steps"], c["max_order"], real_object=real)
+            got, final = O.run_setter_seq(c["steps"], c["max_order"], real_object=real, want_final=True)
+            if not real:
+                finals.append((c, final, got))
             fresh = [O.run_setter(d, c["max_order"], real_object=real) for d in c["steps"]]
             ctx.dist("setter-sequence/%s/steps=%d" % ("object" if real else "namespace", len(c["steps"])))
             ctx.count(("seq", real, json.dumps(c, sort_keys=True)), nontrivial=any(O._effective(d) for d in c["steps"][1:]),
@@ -540,6 +543,30 @@ def check_setter_sequences(ctx: Ctx):
             if bad:
                 nbad += 1
                 ctx.violation(bad[0], bad[1], {"kind": "setter-sequence", "case": dict(c, real_object=real)})
+    # correspondence: the coefficient dictionary the object stores at the end vs the Coq model of the stored state
+    # (assign_all: DEFAULT | old | params per accepted assignment), which C12_setter_sequence_meaning speaks about
+    if model_available and finals:
+        exprs = []
+        for c, _, _ in finals:
+            mo = "None" if c["max_order"] is None else "(Some %d%%nat)" % c["max_order"]
+            exprs.append("show_stored (assign_all %s default_probe_params [%s])" % (mo, "; ".join(cdict(d) for d in c["steps"])))
+        try:
+            raw = ctx.coq_eval("aliasseq", PRE, exprs, shard=max(40, len(exprs) // 3 + 1), parse=False)
+            for (c, final, got), v in zip(finals, raw):
+                m = {k: Fraction(n, dd) for k, (n, dd) in parse_coq_value(re.sub(r"\s+", " ", re.sub(r"%\w+", "", v)))}
+                ctx.cov["traces_validated_against_impl"] += 1
+                if set(m) != set(final) or any(float(m[k]) != final[k] for k in m):
+                    ctx.cov["disagreements_checked"] += 1
+                    nbad += 1
+                    ctx.violation("alias-correspondence/setter-sequence",
+                                  "after assigning %s the object stores aberration_coefs %s but the Coq model of the stored "
+                                  "state has %s (the sequence theorems no longer speak about this code)"
+                                  % (c["steps"], final, {k: float(x) for k, x in m.items()}),
+                                  {"kind": "setter-sequence", "case": dict(c, real_object=False)},
+                                  found_input=O.oracle_setter_seq(c, got, [O.run_setter(d, c["max_order"]) for d in c["steps"]]) is not None)
+        except RuntimeError as e:
+            ctx.violation("alias-model-machinery", "the setter-sequence model could not be evaluated: %s" % str(e)[-600:],
+                          {"kind": "obligation"}, found_input=False)
     # values that are not numbers must not be accepted silently
     njunk = 0
     for key in ["defocus", "C10", "Cs", "phi12", "astigmatism"]:
@@ -569,8 +596,16 @@ def check_oracle(ctx: Ctx, escalate: bool, focus=(), T=None):
     base = 10 if escalate else 1
     focus = set(focus)
 
+    NEW = ("equivalence", "reps", "shift", "fit2")       # round-3 families: total escalation capped (see below)
+    drift = 4 if (ctx.quick and ctx.escalated) else 1   # ctx.budget already multiplies by the drift-guard factor
+
     def mult(fam):
-        return base * (FOCUS if fam in focus else 1)
+        m = base * (FOCUS if fam in focus else 1)
+        if fam in NEW and fam not in focus:
+            m = max(1, m // drift)                       # drift x proof escalation: 10x in total, not 40x
+        return m
+
+    ENOUGH = 25      # failing inputs per family after which the search of that family stops
 
     if escalate:
         ctx.cov["escalation"] = {"budget": "x%d" % base, "focused_families": sorted(focus), "focus_factor": FOCUS if focus else 1}
@@ -580,6 +615,8 @@ def check_oracle(ctx: Ctx, escalate: bool, focus=(), T=None):
     stats = {}
 
     def run(kind, case, fn):
+        if stats.get(kind, 0) >= ENOUGH:
+            return None
         ctx.dist("oracle/" + kind)
         ctx.count((kind, json.dumps(case, sort_keys=True)), nontrivial=True)
         res = fn(case)
